@@ -843,6 +843,10 @@ pub fn run_c15(tier: &str, seed: u64) -> Report {
         ("{\"f\":1.50}", vec![ClaimOp::Set(Claim::Custom("f".into(), json!(1.5)))], vec![Claim::Custom("f".into(), json!(1.5))], true),
         ("{\"f\":1E2}", vec![ClaimOp::Set(Claim::Custom("f".into(), json!(100.0)))], vec![Claim::Custom("f".into(), json!(100.0))], true),
         ("{\"f\":0.10,\"s\":\"\\u0061\"}", vec![ClaimOp::Set(Claim::Custom("f".into(), json!(0.1))), ClaimOp::Set(Claim::Custom("s".into(), json!("a")))], vec![Claim::Custom("f".into(), json!(0.1)), Claim::Custom("s".into(), json!("a"))], true),
+        // a value that is an object with ONE member named like the claim is an object, not the member's value
+        ("{\"role\":{\"role\":\"admin\"}}", vec![ClaimOp::Set(Claim::Custom("role".into(), json!({"role": "admin"})))], vec![Claim::Custom("role".into(), json!("admin"))], false),
+        ("{\"aud\":{\"aud\":\"customers\"},\"n\":1}", vec![ClaimOp::Set(Claim::Custom("aud".into(), json!({"aud": "customers"}))), ClaimOp::Set(Claim::Custom("n".into(), json!(1)))], vec![Claim::Aud("customers".into())], false),
+        ("{\"seats\":[4]}", vec![ClaimOp::Set(Claim::Custom("seats".into(), json!([4])))], vec![Claim::Custom("seats".into(), json!(4))], false),
         ("{\"seats\":{\"$serde_json::private::Number\":\"4\"}}", vec![ClaimOp::Set(Claim::Custom("seats".into(), json!({"$serde_json::private::Number": "4"})))], vec![Claim::Custom("seats".into(), json!(4))], false),
         ("{\"seats\":{\"$serde_json::private::RawValue\":\"4\"}}", vec![ClaimOp::Set(Claim::Custom("seats".into(), json!({"$serde_json::private::RawValue": "4"})))], vec![Claim::Custom("seats".into(), json!(4))], false),
         ("{\"aud\":{\"$serde_json::private::RawValue\":\"\\\"customers\\\"\"}}", vec![ClaimOp::Set(Claim::Custom("aud".into(), json!({"$serde_json::private::RawValue": "\"customers\""})))], vec![Claim::Aud("customers".into())], false),
